@@ -23,6 +23,8 @@ CONSTANTS MaxNodes, MaxRemovers, MaxDisp, MaxEnq, MaxDepth, Counts, Ops, NestOps
 
 Keys == 1..4                      \* 1,2: dispatcher 1; 3,4: dispatcher 2
 Rs == 1..MaxRemovers
+\* TLC configuration files cannot spell negative numbers: an element 100 + k of Counts stands for the trigger count -k
+RealCount(c) == IF c >= 100 THEN 0 - (c - 100) ELSE c
 VARIABLES lst,       \* [Keys -> Seq(node)]
           kind,      \* node -> [k: "plain"|"ctr"|"cond", left: Int]   (a sequence indexed by node)
           rem,       \* [Rs -> [alive, tgt, resp: set of nodes]]
@@ -150,7 +152,7 @@ RetCond(v) == /\ frames # <<>> /\ Top.cur # 0 /\ Top.ph = "c"
 
 Next == \/ \E e \in EvKeys : \/ OpAppend(e) \/ OpAppendCond(e) \/ OpDispatch(e) \/ OpEnqueue(e)
                            \/ \E h \in 1..MaxNodes : OpRemove(e, h)
-                           \/ (\E c \in Counts : OpAppendCtr(e, c) \/ OpPrependCtr(e, c) \/ (\E b \in 0..MaxNodes : OpInsertCtr(e, b, c)))
+                           \/ (\E c0 \in Counts : LET c == RealCount(c0) IN OpAppendCtr(e, c) \/ OpPrependCtr(e, c) \/ (\E b \in 0..MaxNodes : OpInsertCtr(e, b, c)))
                            \/ OpPrependCond(e) \/ (\E b2 \in 0..MaxNodes : OpInsertCond(e, b2))
         \/ \E r \in Rs : \/ OpSReset(r) \/ OpSDestroy(r)
                          \/ \E e \in EvKeys : OpSAdd(r, e, FALSE) \/ OpSAdd(r, e, TRUE)
